@@ -113,3 +113,39 @@ V('C04', 'diff-applied-to-scratch-schema', 'edb/schema/objtypes.py', 'edb.schema
   '                schema = diff.apply(schema, context)\n', '                schema = diff.apply(nschema, context)\n', 'C04.R10', '_alter_finalize:apply-threads-schema')
 V('C04', 'blocking-ref-by-name', 'edb/schema/properties.py', 'edb.schema.properties.Property.is_blocking_ref',
   'return not self.is_endpoint_pointer(schema)', "return self.get_shortname(schema).name not in {'source', 'target'}", 'C04.R10', 'endpoints-by-descent')
+
+# round 4
+V('C04', 'short-name-index-read-from-self-again', 'edb/schema/schema.py',
+  'edb.schema.schema.FlatSchema._update_obj_name',
+  '''                try:
+                    ids = shortname_to_id[sn_key]
+                except KeyError:
+                    ids = frozenset()
+
+                shortname_to_id = shortname_to_id.set(sn_key, ids | {obj_id})
+''', '''                ids = self._shortname_to_id.get(sn_key, frozenset())
+                shortname_to_id = self._shortname_to_id.set(
+                    sn_key, ids | {obj_id})
+''', 'C04.R11', '_shortname_to_id-through-working-copy')
+# negative control: Map.get on the working copy
+V('C04', 'short-name-index-get-on-working-copy', 'edb/schema/schema.py',
+  'edb.schema.schema.FlatSchema._update_obj_name',
+  '''                try:
+                    ids = shortname_to_id[sn_key]
+                except KeyError:
+                    ids = frozenset()
+''', '''                ids = shortname_to_id.get(sn_key, frozenset())
+''', None)
+V('C04', 'renamed-tuple-named-by-position', 'edb/schema/types.py',
+  'edb.schema.types.RenameType._canonicalize',
+  '''                        k: st.get_name(schema)
+                        for k, st in (
+                            ref_type.get_element_types(schema).items(schema)
+                        )''', '''                        str(i): st.get_name(schema)
+                        for i, st in enumerate(ref_type.get_subtypes(schema))''',
+  'C04.R11', 'tuple-name-from-element-names')
+V('C04', 'link-target-prop-not-updated-when-inherited', 'edb/schema/links.py',
+  'edb.schema.links.SetLinkType._alter_begin',
+  '        if not context.canonical:\n',
+  "        if not context.canonical and not self.is_attribute_inherited('target'):\n",
+  'C04.R11', 'target-prop-follows')
